@@ -121,6 +121,10 @@ def run(tier):
         for prog, valid in probe_progs:
             for ok in (outkinds if full else rnd.sample(outkinds, 2)):
                 add(prog, valid, fs, ok, rnd.choice(["FILE", "stdin"]), {"c": rnd.choice([4, 8, 16])})
+    # stdin arriving in pieces (1 byte, 7 bytes, one line-ish, 4096 bytes at a time)
+    for pi, (prog, valid) in enumerate(progs[:12] if not full else progs[:80]):
+        for step in ((1, 7, 40, 4096) if pi < 3 or full else (rnd.choice([1, 7, 40]),)):
+            add(prog, valid, rnd.choice(flagsets), rnd.choice(outkinds), "stdin", {"c": rnd.choice([4, 8, 16]), "pieces": step})
     for body, want in execs:
         for src in ("FILE", "stdin"):
             add(body, True, [], "-r", src, {"want": want})
@@ -228,6 +232,25 @@ def run(tier):
         try:
             if j["src"] == "FILE":
                 r = subprocess.run(args + [src], capture_output=True, env=env, timeout=30, stdin=subprocess.DEVNULL)
+            elif j.get("pieces"):
+                # stdin is a pipe that delivers the program in several pieces (a generator writing line by line, `cat a b |`):
+                # every read() is short, none of them is the end of the input
+                import time
+                pr = subprocess.Popen(args, stdin=subprocess.PIPE, stdout=subprocess.PIPE, stderr=subprocess.PIPE, env=env)
+                data = text.encode()
+                step = j["pieces"]
+                try:
+                    for i in range(0, len(data), step):
+                        pr.stdin.write(data[i:i + step])
+                        pr.stdin.flush()
+                        time.sleep(0.003)
+                    pr.stdin.close()
+                except BrokenPipeError:
+                    pass
+                so = pr.stdout.read()
+                se = pr.stderr.read()
+                rc = pr.wait(timeout=30)
+                r = subprocess.CompletedProcess(args, rc, so, se)
             else:
                 r = subprocess.run(args, capture_output=True, env=env, timeout=30, input=text.encode())
         except subprocess.TimeoutExpired:
@@ -309,7 +332,7 @@ def run(tier):
             if v.cov["evaluations"] % 400 == 1:
                 v.sample({"argv": o["argv"], "source": j["src"], "program": j["prog"][:4], "exit": o["rc"], "stdout": out[:80] if k not in ("-Pstdout",) else o["stdout"].hex()[:80]})
     v.cov["rule"] = ("asmline (tools/asmline.c built with ASan+UBSan from the working tree) vs the library driven through the corresponding documented option calls: seeded programs (valid, with option-sensitive probe lines, "
-                     "with one invalid line, executable ones) x every mode flag and non-conflicting flag pairs x outputs {-p, -P file, -P /dev/stdout, -o, -c N (binary), -p -c N, -b N, -p -b N, -r, -r=3, unwritable -P} x {FILE, stdin}. "
+                     "with one invalid line, executable ones) x every mode flag and non-conflicting flag pairs x outputs {-p, -P file, -P /dev/stdout, -o, -c N (binary), -p -c N, -b N, -p -b N, -r, -r=3, unwritable -P} x {FILE, stdin, stdin delivered in pieces of 1 / 7 / 40 / 4096 bytes}. "
                      "Binary outputs must equal the library bytes, -p the hex rows per instruction (chunk rows with -c), -b the library count, -r the value the code returns; exit status 0 iff assembly and output succeeded")
     v.cov["exhaustive"] = False
     v.cov.update(stats)
